@@ -153,3 +153,17 @@ def affinity_eval(case):
     for engine in ("py", "c_full", "c_compact"):
         guard("lc_" + engine, lambda e=engine: matches(e))
     return out
+
+
+# ---------------------------------------------------------------------------------------------------------------------
+# C20: routines that must work (and give the same floats) without NumPy
+def purity_nonumpy(a, b, w):
+    import array as _array
+    from dtaidistance import dtw, ed
+    kw = {} if w is None else {"window": w}
+    out = {}
+    for name, (x, y) in (("list", (list(a), list(b))), ("array", (_array.array("d", a), _array.array("d", b)))):
+        out[name] = [float(dtw.distance(x, y, **kw)).hex(), float(dtw.lb_keogh(x, y, **kw)).hex(),
+                     float(ed.distance(x, y)).hex(), float(dtw.ub_euclidean(x, y)).hex(),
+                     [float(v).hex() for v in dtw.distance_matrix([x, y, x], compact=True, **kw)]]
+    return out
